@@ -56,6 +56,46 @@ theorem protoOk_not_ext (rest : List SLayer) (nh : UInt8) (h : protoOk (ipProtoO
         split at hp <;> simp at hp <;> simp [← hp]
       rcases this with h1 | h1 | h1 | h1 <;> subst h1 <;> revert hx <;> decide
 
+theorem walkable_isExt (h : UInt8) (hx : v6Walkable h = true) : isExtHdr h = true := by
+  simp only [v6Walkable, Bool.or_eq_true, beq_iff_eq] at hx
+  simp only [isExtHdr, Bool.or_eq_true, beq_iff_eq]
+  rcases hx with (((h0 | h0) | h0) | h0) | h0 <;> simp [h0]
+
+/-- where the specification's walk over the reply's extension headers arrives at an upper-layer header, the
+    loop of `IPv6::matches_response` arrives at the same octets (same fuel on both sides) -/
+theorem walkExt_of_skipExts : ∀ (f : Nat) (cur : UInt8) (b : Bytes) (p : UInt8) (b' : Bytes),
+    skipExts f cur b = some (p, b') → isExtHdr p = false → walkExt f cur b = .ok (some b')
+  | 0, cur, b, p, b', h, hp => by
+    unfold skipExts at h
+    split at h
+    · simp at h
+    · simp only [Option.some.injEq, Prod.mk.injEq] at h
+      obtain ⟨h1, h2⟩ := h
+      subst h1; subst h2
+      exact walkExt_not_ext 0 cur b hp
+  | f + 1, cur, b, p, b', h, hp => by
+    unfold skipExts at h
+    split at h
+    · rename_i hw
+      dsimp only at h
+      split at h
+      · rename_i hn
+        split at h
+        · simp at h
+        · have ih := walkExt_of_skipExts f _ _ p b' h hp
+          unfold walkExt
+          have hlen : b.length > 8 := by omega
+          have hc : (decide (b.length > 8) && isExtHdr cur) = true := by simp [hlen, walkable_isExt cur hw]
+          simp only [hc, if_true, rd1_ok (show 1 < b.length by omega), rd1_ok (show 0 < b.length by omega), bind_ok]
+          have : ¬ ((b.getD 1 0).toNat + 1) * 8 > b.length := by omega
+          simp only [this, if_false]
+          exact ih
+      · simp at h
+    · simp only [Option.some.injEq, Prod.mk.injEq] at h
+      obtain ⟨h1, h2⟩ := h
+      subst h1; subst h2
+      exact walkExt_not_ext _ cur b hp
+
 theorem agrees_cont {c : Bool} {k : Verdict} {o : Out Bool} (h : k.agrees o) :
     (if c = true then k else Verdict.unspec).agrees o := by
   cases c
@@ -173,14 +213,16 @@ theorem refine_ip4 (hdr : Bytes) :
   split
   · trivial
   rename_i hlen
-  split
-  · trivial
-  rename_i hq
-  have hq' : quotesRequest hdr b ((b.getD 0 0).toNat % 16 * 4) = false := by simpa using hq
   have hsz : (if (b.getD 0 0).toNat % 16 * 4 < b.length then (b.getD 0 0).toNat % 16 * 4 else b.length)
       = (b.getD 0 0).toNat % 16 * 4 := by split <;> omega
   have h20 : ¬ (b.getD 0 0).toNat % 16 * 4 < 20 := by omega
   have hqe := ipQuotesUs_eq hdr b ((b.getD 0 0).toNat % 16 * 4) (by omega) (by omega)
+  split
+  · -- the ICMP destination unreachable quoting our header: accepted whatever the addresses are
+    rename_i hq
+    simp only [h20, if_false, hsz, hqe, hq, bind_ok, if_true, Verdict.agrees]
+  rename_i hq
+  have hq' : quotesRequest hdr b ((b.getD 0 0).toNat % 16 * 4) = false := by simpa using hq
   simp only [h20, if_false, hsz, hqe, hq', bind_ok, Bool.false_eq_true,
     rdN_ok (show 12 + 4 ≤ b.length by omega), rdN_ok (show 16 + 4 ≤ b.length by omega)]
   have hc := agrees_cont (c := protoOk (ipProtoOf rest) (b.getD 9 0)) (ih (b.drop ((b.getD 0 0).toNat % 16 * 4)))
@@ -207,24 +249,29 @@ theorem refine_ip6 (src dst : Bytes) :
   simp only [hl, if_false, rdN_ok (show 24 + 16 ≤ b.length by omega), rdN_ok (show 8 + 16 ≤ b.length by omega), bind_ok]
   split
   · trivial
-  -- the continuation: no extension header in front of the announced transport
-  have hc : (if protoOk (ipProtoOf rest) (b.getD 6 0) = true then demand rest (b.drop 40) else Verdict.unspec).agrees
+  -- the continuation: the reply's extension headers are skipped by the loop exactly as the specification skips them
+  have hc : (v6Cont (protoOk (ipProtoOf rest)) (fun b' => demand rest b') (skipExts (b.length - 40) (b.getD 6 0) (b.drop 40))).agrees
       (if (List.map SLayer.toLayer rest).isEmpty = true then Out.ok true else
         (rd1 "IPv6.next_header" b 6).bind fun nh =>
         (walkExt (b.length - 40) nh (b.drop 40)).bind fun w =>
         match w with
         | some b' => matchStack (List.map SLayer.toLayer rest) b'
         | none => Out.ok false) := by
-    cases hp : protoOk (ipProtoOf rest) (b.getD 6 0)
-    · trivial
-    · simp only [if_true]
-      cases rest with
-      | nil => simp [demand, Verdict.agrees]
-      | cons l r =>
-        simp only [List.map_cons, List.isEmpty_cons, Bool.false_eq_true, if_false, rd1_ok (show 6 < b.length by omega), bind_ok,
-          walkExt_not_ext _ _ _ (protoOk_not_ext _ _ hp)]
-        exact ih _
-  generalize (if protoOk (ipProtoOf rest) (b.getD 6 0) = true then demand rest (b.drop 40) else Verdict.unspec) = K at hc ⊢
+    cases hs : skipExts (b.length - 40) (b.getD 6 0) (b.drop 40) with
+    | none => trivial
+    | some pb =>
+      obtain ⟨p, b'⟩ := pb
+      simp only [v6Cont]
+      cases hp : protoOk (ipProtoOf rest) p
+      · trivial
+      · simp only [if_true]
+        cases rest with
+        | nil => simp [demand, Verdict.agrees]
+        | cons l r =>
+          simp only [List.map_cons, List.isEmpty_cons, Bool.false_eq_true, if_false, rd1_ok (show 6 < b.length by omega), bind_ok,
+            walkExt_of_skipExts _ _ _ _ _ hs (protoOk_not_ext _ _ hp)]
+          exact ih _
+  generalize (v6Cont (protoOk (ipProtoOf rest)) (fun b' => demand rest b') (skipExts (b.length - 40) (b.getD 6 0) (b.drop 40))) = K at hc ⊢
   generalize (if (List.map SLayer.toLayer rest).isEmpty = true then Out.ok true else
         (rd1 "IPv6.next_header" b 6).bind fun nh =>
         (walkExt (b.length - 40) nh (b.drop 40)).bind fun w =>
@@ -298,9 +345,62 @@ theorem refine_radiotap :
   simp only [this, if_true]
   exact ih _
 
+theorem refine_loopback (family : Bytes) :
+    (demand (.loopback family :: rest) b).agrees (matchStack (toModel (.loopback family :: rest)) b) := by
+  simp only [toModel, List.map_cons, SLayer.toLayer, demand, matchStack]
+  by_cases hl : b.length < 4
+  · simp [hl, Verdict.agrees]
+  simp only [hl, if_false]
+  rcases beq_cases (slice b 0 4) family with ⟨e1, e1'⟩ | ⟨e1, e1'⟩
+  · simp only [e1, if_true]
+    cases rest with
+    | nil => simp [demand, Verdict.agrees, rdN_ok (show 0 + 4 ≤ b.length by omega), e1']
+    | cons l r => simpa [toModel] using ih (b.drop 4)
+  · simp [e1, Verdict.agrees]
+
 end
 
 /-! ### terminal layers -/
+
+theorem refine_bootp (xid : Bytes) (rest : List SLayer) (b : Bytes) :
+    (demand (.bootp xid :: rest) b).agrees (matchStack (toModel (.bootp xid :: rest)) b) := by
+  simp only [toModel, List.map_cons, SLayer.toLayer, demand, matchStack]
+  by_cases hl : b.length < 236
+  · simp [hl, Verdict.agrees]
+  simp only [hl, if_false, rdN_ok (show 4 + 4 ≤ b.length by omega), bind_ok]
+  have hc : Verdict.accept.agrees (Out.ok true) := rfl
+  rcases beq_cases (slice b 4 4) xid with ⟨e1, e1'⟩ | ⟨e1, e1'⟩ <;>
+  simp only [e1, e1', field, if_true, if_false, Bool.false_eq_true] <;>
+  close_case hc
+
+theorem refine_arp (spa tpa : Bytes) (rest : List SLayer) (b : Bytes) :
+    (demand (.arp spa tpa :: rest) b).agrees (matchStack (toModel (.arp spa tpa :: rest)) b) := by
+  simp only [toModel, List.map_cons, SLayer.toLayer, demand, matchStack]
+  by_cases hl : b.length < 28
+  · simp [hl, Verdict.agrees]
+  simp only [hl, if_false, rdN_ok (show 14 + 4 ≤ b.length by omega), rdN_ok (show 24 + 4 ≤ b.length by omega), bind_ok]
+  have hc : Verdict.accept.agrees (Out.ok true) := rfl
+  rcases beq_cases (slice b 14 4) tpa with ⟨e1, e1'⟩ | ⟨e1, e1'⟩ <;>
+  rcases beq_cases (slice b 24 4) spa with ⟨e2, e2'⟩ | ⟨e2, e2'⟩ <;>
+  simp only [e1, e1', e2, e2', field, Bool.and_true, Bool.and_false, Bool.true_and, Bool.false_and, if_true, if_false,
+    Bool.false_eq_true] <;>
+  close_case hc
+
+theorem refine_dhcpv6 (hdr : Bytes) (rest : List SLayer) (b : Bytes) :
+    (demand (.dhcpv6 hdr :: rest) b).agrees (matchStack (toModel (.dhcpv6 hdr :: rest)) b) := by
+  simp only [toModel, List.map_cons, SLayer.toLayer, demand, matchStack, isRelayType]
+  by_cases hr : (hdr.getD 0 0 == 12 || hdr.getD 0 0 == 13) = true
+  · simp only [hr, if_true, Verdict.agrees]
+  · have hr' : (hdr.getD 0 0 == 12 || hdr.getD 0 0 == 13) = false := by simpa using hr
+    simp only [hr', Bool.false_eq_true, if_false, Bool.not_false, if_true]
+    by_cases hl : b.length < 4
+    · simp [hl, Verdict.agrees]
+    simp only [hl, if_false, rd1_ok (show 0 < b.length by omega), rdN_ok (show 1 + 3 ≤ b.length by omega), bind_ok]
+    have hc : Verdict.accept.agrees (Out.ok true) := rfl
+    cases hb : (b.getD 0 0 == 12 || b.getD 0 0 == 13) <;>
+    rcases beq_cases (slice b 1 3) (slice hdr 1 3) with ⟨e1, e1'⟩ | ⟨e1, e1'⟩ <;>
+    simp only [hb, e1, e1', field, Bool.not_true, Bool.not_false, if_true, if_false, Bool.false_eq_true] <;>
+    close_case hc
 
 theorem refine_icmp (kind : ICMPKind) (id seq : Bytes) (rest : List SLayer) (b : Bytes) :
     (demand (.icmp kind id seq :: rest) b).agrees (matchStack (toModel (.icmp kind id seq :: rest)) b) := by
@@ -380,5 +480,47 @@ theorem refines : ∀ (r : List SLayer) (b : Bytes), (demand r b).agrees (matchS
     | dns i => exact refine_dns i rest b
     | payload => simp [demand, toModel, SLayer.toLayer, matchStack, Verdict.agrees]
     | radiotap => exact refine_radiotap rest b ih
+    | loopback f => exact refine_loopback rest b ih f
+    | bootp x => exact refine_bootp x rest b
+    | dhcpv6 h => exact refine_dhcpv6 h rest b
+    | arp s t => exact refine_arp s t rest b
+
+/-- where no reserved octet is set, the receiver's walk of RFC 8200 is the walk of the specification -/
+theorem skipExtsRFC_eq : ∀ (f : Nat) (cur : UInt8) (b : Bytes), fragReservedSet f cur b = false →
+    skipExtsRFC f cur b = skipExts f cur b
+  | 0, cur, b, _ => by simp [skipExtsRFC, skipExts]
+  | f + 1, cur, b, h => by
+    unfold fragReservedSet at h
+    unfold skipExtsRFC skipExts
+    by_cases hw : v6Walkable cur = true
+    · simp only [hw, if_true] at h ⊢
+      by_cases h44 : cur = 44
+      · subst h44
+        simp only [beq_self_eq_true, if_true, Bool.true_and] at h ⊢
+        by_cases h1 : b.getD 1 0 = 0
+        · have hz : ((0 : UInt8).toNat + 1) * 8 = 8 := rfl
+          simp only [h1, hz, beq_self_eq_true, bne_self_eq_false, Bool.false_eq_true, if_false, Bool.true_and] at h ⊢
+          by_cases hlen : 8 < b.length
+          · simp only [hlen, if_true] at h ⊢
+            split
+            · rfl
+            · rename_i hc
+              simp only [hc, if_false] at h
+              exact skipExtsRFC_eq f _ _ h
+          · simp [hlen]
+        · have hne : (b.getD 1 0 != 0) = true := by simpa using h1
+          by_cases hlen : 8 < b.length
+          · simp only [hlen, if_true, hne] at h
+            exact absurd h (by decide)
+          · have : ¬ ((b.getD 1 0).toNat + 1) * 8 < b.length := by omega
+            simp only [hlen, this, if_false]
+      · have hb : (cur == 44) = false := by simpa using h44
+        simp only [hb, Bool.false_eq_true, if_false, Bool.false_and] at h ⊢
+        split
+        · rename_i hn
+          simp only [hn, if_true] at h
+          exact skipExtsRFC_eq f _ _ h
+        · rfl
+    · simp [hw]
 
 end Tins.Matching
